@@ -1249,11 +1249,15 @@ Definition witness_tx : tx :=
 Lemma witness_tx_wf : tx_wf witness_tx.
 Proof.
   unfold tx_wf, witness_tx. cbn [tx_version tx_lock tx_ins tx_outs].
-  refine (conj _ (conj _ (conj _ (conj _ (conj _ _))))); try (vm_compute; reflexivity).
+  refine (conj _ (conj _ (conj _ (conj _ (conj _ _))))).
+  - reflexivity.
+  - reflexivity.
   - constructor; [|constructor]. unfold txin_wf. cbn [ti_hash ti_index ti_seq].
-    refine (conj _ (conj _ _)); vm_compute; reflexivity.
+    refine (conj _ (conj _ _)); reflexivity.
   - constructor; [|constructor]. unfold txout_wf. cbn [to_value to_script].
-    split; vm_compute; reflexivity.
+    split; reflexivity.
+  - reflexivity.
+  - reflexivity.
 Qed.
 
 Lemma find_and_delete_refuted : ~ find_and_delete_statement.
@@ -1281,3 +1285,55 @@ Qed.
 Definition example_script : bytes := [xab; x02; x30; x01; xac; xab; x51].
 Lemma example_decodable : core_decodable example_script = true.
 Proof. vm_compute. reflexivity. Qed.
+
+(* ================================================================================================
+   Part 13 — the statements in the exact form Props/C04.v quotes *)
+Lemma delete_subscript_total script sub : exists r, delete_subscript script sub = Ret r.
+Proof. eexists. apply delete_subscript_dws. Qed.
+
+Lemma legacy_digest_btc_ltc (sha256 dsha256 : bytes -> bytes) t script idx ht c :
+  tx_wf t -> (idx < length (tx_ins t))%nat -> ht < 2 ^ 32 -> N.of_nat (length script) < 2 ^ 64 ->
+  c = BTC \/ c = LTC -> core_decodable script = true ->
+  signature_hash sha256 dsha256 c t script idx ht
+  = Ret (be_decode (core_digest dsha256 (core_signature_hash_legacy script (to_core t) idx ht))).
+Proof. intros. now apply legacy_digest_btc. Qed.
+
+Lemma bip143_preimage_btc (sha256 dsha256 : bytes -> bytes) t script idx ht u :
+  tx_wf t -> (idx < length (tx_ins t))%nat -> N.of_nat (length script) < 2 ^ 64 ->
+  nth_error (tx_unspents t) idx = Some (Some u) -> to_value u < 2 ^ 64 -> ht < 2 ^ 32 ->
+  btc_segwit_preimage dsha256 t script idx ht
+  = Ret (bip143_preimage dsha256 script (to_core t) idx (to_value u) ht).
+Proof. intros. now apply (btc_preimage_eq dsha256 t script idx). Qed.
+
+Lemma bip143_digest_btc_ltc_bch (sha256 dsha256 : bytes -> bytes) t script idx ht u c :
+  tx_wf t -> (idx < length (tx_ins t))%nat -> ht < 2 ^ 32 -> N.of_nat (length script) < 2 ^ 64 ->
+  nth_error (tx_unspents t) idx = Some (Some u) -> to_value u < 2 ^ 64 ->
+  c = BTC \/ c = LTC \/ c = BCH ->
+  signature_for_hash_type_segwit sha256 dsha256 c t script idx ht
+  = Ret (be_decode (dsha256 (bip143_preimage dsha256 script (to_core t) idx (to_value u) ht))).
+Proof. intros. now apply segwit_digest_btc. Qed.
+
+Lemma forkid_btg_both (sha256 dsha256 : bytes -> bytes) t script idx ht u :
+  tx_wf t -> (idx < length (tx_ins t))%nat -> ht < 2 ^ 32 -> N.of_nat (length script) < 2 ^ 64 ->
+  nth_error (tx_unspents t) idx = Some (Some u) -> to_value u < 2 ^ 64 ->
+  let spec := forkid_result dsha256 (forkid_preimage dsha256 FORKID_BTG script (to_core t) idx (to_value u) ht) in
+  signature_hash sha256 dsha256 BTG t script idx ht = spec
+  /\ signature_for_hash_type_segwit sha256 dsha256 BTG t script idx ht = spec.
+Proof. intros. split; [now apply forkid_btg_legacy | now apply forkid_btg_segwit]. Qed.
+
+Lemma grs_single_sha (sha256 dsha256 : bytes -> bytes) t script idx ht u :
+  tx_wf t -> (idx < length (tx_ins t))%nat -> ht < 2 ^ 32 -> N.of_nat (length script) < 2 ^ 64 ->
+  nth_error (tx_unspents t) idx = Some (Some u) -> to_value u < 2 ^ 64 ->
+  (core_decodable script = true ->
+   signature_hash sha256 dsha256 GRS t script idx ht
+   = Ret (be_decode (core_digest sha256 (core_signature_hash_legacy script (to_core t) idx ht))))
+  /\ signature_for_hash_type_segwit sha256 dsha256 GRS t script idx ht
+     = Ret (be_decode (sha256 (bip143_preimage sha256 script (to_core t) idx (to_value u) ht))).
+Proof. intros. split; [intros; now apply legacy_digest_grs | now apply segwit_digest_grs]. Qed.
+
+Lemma forkid_bch_q (sha256 dsha256 : bytes -> bytes) t script idx ht u :
+  tx_wf t -> (idx < length (tx_ins t))%nat -> ht < 2 ^ 32 -> N.of_nat (length script) < 2 ^ 64 ->
+  nth_error (tx_unspents t) idx = Some (Some u) -> to_value u < 2 ^ 64 ->
+  signature_hash sha256 dsha256 BCH t script idx ht
+  = forkid_result dsha256 (forkid_preimage dsha256 FORKID_BCH script (to_core t) idx (to_value u) ht).
+Proof. intros. now apply forkid_bch. Qed.
